@@ -119,6 +119,11 @@ pub fn run(ctx: &mut Ctx) {
                 // truthful counts: extracted = what went in; skipped = what did not; together the source's count
                 let user_in_target = want.iter().filter(|x| t.find_file(&x.0).map(|f| f.is_some()).unwrap_or(false)).count();
                 if sum.extracted_files != user_in_target { bad = true; ctx.out.oracle(false, "summary-extracted-count-untrue", &format!("reported {} files extracted, {} of the selected files are in the target :: {desc}", sum.extracted_files, user_in_target)); }
+                // the reported counts against the harness' own bookkeeping: listed entries, entries the options exclude
+                let n_excluded = listing.iter().filter(|(n, fl, _)| excluded(n, *fl)).count();
+                if sum.source_files != listing.len() || sum.skipped_files != n_excluded {
+                    bad = true; ctx.out.oracle(false, "summary-counts-untrue", &format!("{:?} but the source lists {} entries of which the options exclude {} :: {desc}", sum, listing.len(), n_excluded));
+                }
                 if sum.source_files != sum.extracted_files + sum.skipped_files { bad = true; ctx.out.oracle(false, "summary-counts-do-not-add-up", &format!("{:?} :: {desc}", sum)); }
                 if sum.verified != opt.verify { bad = true; ctx.out.oracle(false, "summary-verified-flag-untrue", &format!("{:?} :: {desc}", sum)); }
                 // comparison reports no content difference and nothing missing beyond the exclusions
